@@ -291,8 +291,9 @@ let () =
   (* one model: what /repo HEAD does (all C16 findings are fixed); the pre-fix behaviours survive only as
      the refuted theorem in Properties.v, not in the correspondence *)
   let zlb_recv = false in   (* HEAD's dispatch rule; the pre-96f9f16 rule exists only in the refuted theorem *)
-  (* variant "defective" = the one open finding: no closed-connection record, a late SCCRQ copy reopens *)
-  let linger = not (Array.length Sys.argv > 3 && Sys.argv.(3) = "defective") in
+  (* closed control connections are remembered for a retransmission cycle (1a77bf9); the rule without the record
+     survives only as C16_sccrq_once_refuted_pre_1a77bf9 *)
+  let linger = true in
   List.iter (fun line ->
       incr idx;
       match tokens line with
